@@ -608,8 +608,18 @@ def _nondet_in(ctx: Ctx, fns: list[FuncInfo]):
             if isinstance(n, (ast.ListComp, ast.DictComp, ast.GeneratorExp, ast.SetComp)):
                 its.extend(gen.iter for gen in n.generators)
             for it in its:
-                if isinstance(it, (ast.Set, ast.SetComp)) or (isinstance(it, ast.Call) and dotted(it.func) in ('set', 'frozenset')):
-                    out.append((f, it, 'iteration over a set'))
+                cands = [it]
+                if isinstance(it, ast.Name):
+                    # a local bound to a set somewhere in the function
+                    for a in walk_local(f.node):
+                        if isinstance(a, ast.Assign) and any(isinstance(t, ast.Name) and t.id == it.id for t in a.targets):
+                            cands.append(a.value)
+                        elif isinstance(a, ast.AnnAssign) and a.value is not None and isinstance(a.target, ast.Name) and a.target.id == it.id:
+                            cands.append(a.value)
+                for c in cands:
+                    if isinstance(c, (ast.Set, ast.SetComp)) or (isinstance(c, ast.Call) and dotted(c.func) in ('set', 'frozenset')):
+                        out.append((f, it, 'iteration over a set (hash-seed dependent order)'))
+                        break
         md = memo_decorators(f)
         if md:
             out.append((f, f.node, f'memoised by {md} (equality of 1, 1.0 and True; process-history dependent)'))
@@ -643,7 +653,7 @@ def nondet_free(ctx: Ctx):
                  '' if not nd and not bad else 'see the individual reports', construct='closure')
 
 
-@rule('C07.FIELD-COVER', ['C07', 'C06', 'C09'])
+@rule('C07.FIELD-COVER', ['C07', 'C06', 'C09', 'C01'])
 def field_cover(ctx: Ctx):
     """serialize_task covers every field and the class (module + qualname); cache_key hashes the JSON of the
     whole serialised task and contains hash, qualname and the cache's KEY_PREFIX."""
@@ -754,7 +764,7 @@ def field_cover(ctx: Ctx):
                  '' if okt else 'the returned key does not contain the cache prefix, the type qualname and the hash', construct='key-template')
 
 
-@rule('C07.NEST-COVER', ['C07'], min_instances=3)
+@rule('C07.NEST-COVER', ['C07', 'C06', 'C01', 'C09'], min_instances=3)
 def nest_cover(ctx: Ctx):
     """Each container branch of serialize_value maps serialize_value over all items / values; the task
     branch recurses into serialize_task."""
@@ -782,7 +792,7 @@ def nest_cover(ctx: Ctx):
     yield ctx.ob('C07.NEST-COVER', not md, sv, sv.node, 'serialisation not memoised', '' if not md else f'serialisation is memoised: {md}', construct='memo')
 
 
-@rule('C07.ENUM-BEFORE-SCALAR', ['C07', 'C09'])
+@rule('C07.ENUM-BEFORE-SCALAR', ['C07', 'C09', 'C01', 'C06'])
 def enum_before_scalar(ctx: Ctx):
     """In serialize_value the task test comes first and the Enum test precedes the scalar pass-through
     (IntEnum / StrEnum members are also ints / strs); the enum encoding carries class and member name."""
@@ -924,7 +934,7 @@ def shape_disjoint(ctx: Ctx):
 # C09 (serialiser side)
 
 
-@rule('C09.SER-DESER-TABLE', ['C09', 'C07'], min_instances=4)
+@rule('C09.SER-DESER-TABLE', ['C09', 'C07', 'C03', 'C06'], min_instances=4)
 def ser_deser_table(ctx: Ctx):
     """For every output shape of serialize_value, deserialize_value has a branch applying the inverse:
     marker tests first, then recursion over all list items and all dict values."""
